@@ -201,6 +201,9 @@ def ch2_result_tells_enqueued(ctx, rep, arms=("BlockOnFull", "DropOldest", "Drop
         base = ret
         while base[0] in ("maperr", "mapok"):
             base = base[1]
+        if not is_ok and not is_err and enq and base == enq[-1].result and outs[-1] in ("Ok", "Err"):
+            # the last attempt's own Result (sides mapped), its outcome decided on this path
+            is_ok, is_err = outs[-1] == "Ok", outs[-1] == "Err"
         if not is_ok and not is_err and enq and base == enq[-1].result and outs[-1] == "?" and all(o != "Ok" for o in outs[:-1]):
             # the wrapper returns the last attempt's own Result (mapped): Ok iff that attempt
             # succeeded, by construction
@@ -430,10 +433,35 @@ def dr1_result_mapping(ctx, rep):
         o = _outcome(p, enq[-1])
         ret = p.ret
         n += 1
+        rep.check(len(enq) == 1, R, "one-enqueue-attempt-per-dispatch:" + short(b.path), ctx.where(b, enq[-1].bb), "path [%s] hands the action to the queue wrapper once" % p.describe(),
+                  "path [%s] calls the queue wrapper %d times: an action the policy already discarded (and counted) is offered again" % (p.describe(), len(enq)))
         if o is None:
+            # `tx.send(..).map(..).map_err(..)`: the returned Result is the enqueue Result with both
+            # sides mapped - Ok iff enqueued
+            base = ret
+            while base[0] in ("maperr", "mapok", "mapped"):
+                base = base[1]
+            if base == enq[-1].result and ret != base:
+                rep.ok(R, "result-maps-Ok:" + short(b.path), ctx.where(b, enq[-1].bb), "returns the enqueue Result with its sides mapped (%s)" % term_str(ret))
+                rep.ok(R, "result-maps-Err:" + short(b.path), ctx.where(b, enq[-1].bb), "returns the enqueue Result with its sides mapped (%s)" % term_str(ret))
+                n += 1
+                continue
+            if base == enq[-1].result:
+                # the wrapper's own Result handed back unchanged: also Ok iff enqueued
+                rep.ok(R, "result-maps-Ok:" + short(b.path), ctx.where(b, enq[-1].bb), "returns the enqueue Result itself")
+                rep.ok(R, "result-maps-Err:" + short(b.path), ctx.where(b, enq[-1].bb), "returns the enqueue Result itself")
+                n += 1
+                continue
             rep.bad(R, "result-ignored:" + short(b.path), ctx.where(b, enq[-1].bb), "path [%s] does not look at the enqueue result and returns %s" % (p.describe(), term_str(ret)))
             continue
         want = "Result::" + o.lstrip("*")
+        base = ret
+        while base[0] in ("maperr", "mapok", "mapped"):
+            base = base[1]
+        if base == enq[-1].result:
+            # the enqueue Result itself, possibly with its sides mapped: Ok iff enqueued
+            rep.ok(R, "result-maps-%s:%s" % (o.lstrip("*"), short(b.path)), ctx.where(b, enq[-1].bb), "returns the enqueue Result (sides mapped): %s" % term_str(ret))
+            continue
         rep.check(ret[0] == "agg" and ret[1].endswith(want), R, "result-maps-%s:%s" % (o.lstrip("*"), short(b.path)), ctx.where(b, enq[-1].bb),
                   "enqueue %s => returns %s" % (o, want), "enqueue %s but returns %s" % (o, term_str(ret)))
     rep.floor(R, "enqueue paths", n, 2)
